@@ -270,4 +270,153 @@ theorem lanTcpEstablished_untracked (w : World) (s : Skb) (l2 : Bool) (p : Pkt)
   | none => rfl
   | some cs => simp only [hm cs h, if_true]
 
+/-! ## WAN egress -/
+
+theorem wanEgress_tcp (rt : RouteIn → Int) (w : World) (s : Skb) (l2 : Bool) (p : Pkt)
+    (hi : s.ingressIf = 0) (hp : parsePacket s.raw l2 = .pkt p) (ht : p.l4proto = IPPROTO_TCP) :
+    wanEgress rt w s l2 = wanEgressTcp rt w s l2 p := by
+  rw [wanEgress_pkt rt w s l2 p hi hp]; simp [ht]
+
+theorem wanEgress_udp (rt : RouteIn → Int) (w : World) (s : Skb) (l2 : Bool) (p : Pkt)
+    (hi : s.ingressIf = 0) (hp : parsePacket s.raw l2 = .pkt p) (ht : p.l4proto = IPPROTO_UDP) :
+    wanEgress rt w s l2 = wanEgressUdp rt w s l2 p := by
+  have : ¬ (IPPROTO_UDP = IPPROTO_TCP) := by decide
+  rw [wanEgress_pkt rt w s l2 p hi hp]; simp [ht, this]
+
+theorem connRoom_congr {w1 w : World} (hc : w1.conn = w.conn) (h : w1.rest = w.rest) (k : Key) :
+    connRoom w1 k ↔ connRoom w k := by
+  unfold connRoom; rw [hc, rest_connCap h]
+
+theorem tcpLive_congr {w1 w : World} (hc : w1.conn = w.conn) (h : w1.rest = w.rest) (k : Key) (ns : Bool) :
+    tcpLive w1 k ns = tcpLive w k ns := by
+  unfold tcpLive; rw [hc, rest_now h]
+
+theorem udpLive_congr {w1 w : World} (hc : w1.conn = w.conn) (h : w1.rest = w.rest) (k : Key) :
+    udpLive w1 k = udpLive w k := by
+  unfold udpLive; rw [hc, rest_now h]
+
+/-- established TCP on the WAN hook: cached decision -/
+theorem wanTcpEstablished_tracked_out (w : World) (s : Skb) (l2 : Bool) (p : Pkt) (cs : ConnState)
+    (ht : p.l4proto = IPPROTO_TCP)
+    (hm : (markTcpSeen w p.tuples.five false false (p.fin || p.rst) {}).2 = some cs)
+    (hr : cs.hasRouting ≠ 0) (hrt : rtrackRoom w s p) :
+    (wanTcpEstablished w s l2 p).2.realises w s false (wanFate w s p cs.decision) := by
+  have hrest := markTcpSeen_rest w p.tuples.five false false (p.fin || p.rst) {}
+  unfold wanTcpEstablished
+  simp only [hm, hr, if_false]
+  rw [← wanFate_congr hrest, ← realises_congr hrest]
+  exact wanVerdict_realises _ s l2 p true cs.decision cs.mac cs.pname cs.pid false (by rw [ht]; rfl)
+    ((rtrackRoom_congr hrest s p).mpr hrt) (by intro h; cases h)
+
+theorem wanTcpEstablished_untracked (w : World) (s : Skb) (l2 : Bool) (p : Pkt)
+    (hm : ∀ cs, (markTcpSeen w p.tuples.five false false (p.fin || p.rst) {}).2 = some cs → cs.hasRouting = 0) :
+    (wanTcpEstablished w s l2 p).2 = outOk s s.mark := by
+  unfold wanTcpEstablished
+  simp only
+  cases h : (markTcpSeen w p.tuples.five false false (p.fin || p.rst) {}).2 with
+  | none => rfl
+  | some cs => simp only [hm cs h, if_true]
+
+/-! ## WAN egress, UDP -/
+
+theorem dport_ne_53_of_not_shortLived (k : Key) (h4 : k.l4 = IPPROTO_UDP) (h : shortLivedUdp k = false) :
+    (k.dport != 53) = true := by
+  unfold shortLivedUdp at h
+  rw [h4] at h
+  simp only [beq_self_eq_true, Bool.true_and, Bool.or_eq_false_iff] at h
+  simp only [bne_iff_ne, ne_eq]
+  intro hd
+  rw [hd] at h
+  simp at h
+
+theorem wanUdpRouted_untracked_fate (rt : RouteIn → Int) (w : World) (s : Skb) (l2 : Bool) (p : Pkt)
+    (pp : Option PidPname) (cs : ConnState) (ht : p.l4proto = IPPROTO_UDP)
+    (hsl : shortLivedUdp p.tuples.five = false) (hw : cs.wanDir = false) (hr0 : cs.hasRouting = 0)
+    (hr : 0 ≤ rt (wanRouteIn s p false (ppName pp) p.ethSrc)) (hrt : rtrackRoom w s p) :
+    (wanUdpRouted rt w s l2 p pp (some cs)).2.realises w s false
+      (wanFate w s p (unpackRoute (rt (wanRouteIn s p false (ppName pp) p.ethSrc)))) := by
+  unfold wanUdpRouted
+  have hneg : ¬ rt (wanRouteIn s p false (ppName pp) p.ethSrc) < 0 := by omega
+  simp only [hw, hr0, Bool.false_eq_true, if_false, bne_self_eq_false, hneg, hsl, Option.isNone_some, Bool.or_self]
+  have hrest := wanUdpCache_rest w p (some cs) false pp (unpackRoute (rt (wanRouteIn s p false (ppName pp) p.ethSrc)))
+    p.ethSrc (ppName pp)
+  rw [← wanFate_congr hrest, ← realises_congr hrest]
+  exact wanVerdict_realises _ s l2 p false _ _ _ _ false (by rw [ht]; rfl)
+    ((rtrackRoom_congr hrest s p).mpr hrt) (by intro h; cases h)
+
+theorem wanUdpRouted_untracked_conn (rt : RouteIn → Int) (w : World) (s : Skb) (l2 : Bool) (p : Pkt)
+    (pp : Option PidPname) (cs : ConnState) (hw : cs.wanDir = false) (hr0 : cs.hasRouting = 0)
+    (hr : 0 ≤ rt (wanRouteIn s p false (ppName pp) p.ethSrc)) (hdp : (p.tuples.five.dport != 53) = true)
+    (hl : alookup w.conn p.tuples.five = some cs) :
+    ∃ cs', alookup (wanUdpRouted rt w s l2 p pp (some cs)).1.conn p.tuples.five = some cs' ∧
+      cs'.decision = unpackRoute (rt (wanRouteIn s p false (ppName pp) p.ethSrc)) ∧ cs'.hasRouting = 1 ∧
+      cs'.mac = p.ethSrc ∧ cs'.dscp = p.tuples.dscp ∧ cs'.pname = ppNameOr pp cs.pname ∧
+      cs'.pid = ppPidOr pp cs.pid := by
+  unfold wanUdpRouted
+  have hneg : ¬ rt (wanRouteIn s p false (ppName pp) p.ethSrc) < 0 := by omega
+  dsimp only
+  rw [if_neg (by rw [hw]; decide), if_neg (by rw [hr0]; decide), if_neg hneg]
+  simp only [wanVerdict_conn]
+  unfold wanUdpCache
+  simp only [hdp, if_true]
+  unfold setConn
+  exact ⟨_, alookup_areplace_self _ _ _ _ hl, rfl, rfl, rfl, rfl, rfl, rfl⟩
+
+theorem wanUdpRouted_tracked_fate (rt : RouteIn → Int) (w : World) (s : Skb) (l2 : Bool) (p : Pkt)
+    (pp : Option PidPname) (cs : ConnState) (ht : p.l4proto = IPPROTO_UDP)
+    (hsl : shortLivedUdp p.tuples.five = false) (hw : cs.wanDir = false) (hr : cs.hasRouting ≠ 0)
+    (hrt : rtrackRoom w s p) :
+    (wanUdpRouted rt w s l2 p pp (some cs)).2.realises w s false (wanFate w s p cs.decision) := by
+  have hr' : (cs.hasRouting != 0) = true := by simp [hr]
+  unfold wanUdpRouted
+  simp only [hw, hr', Bool.false_eq_true, if_false, if_true, hsl, Option.isNone_some, Bool.or_self]
+  have hrest := wanUdpCache_rest w p (some cs) true pp ⟨cs.outbound, cs.mark, cs.must⟩ cs.mac cs.pname
+  rw [← wanFate_congr hrest, ← realises_congr hrest]
+  exact wanVerdict_realises _ s l2 p false cs.decision _ _ _ false (by rw [ht]; rfl)
+    ((rtrackRoom_congr hrest s p).mpr hrt) (by intro h; cases h)
+
+theorem wanUdpRouted_tracked_rt (rt rt' : RouteIn → Int) (w : World) (s : Skb) (l2 : Bool) (p : Pkt)
+    (pp : Option PidPname) (cs : ConnState) (hw : cs.wanDir = false) (hr : cs.hasRouting ≠ 0) :
+    wanUdpRouted rt w s l2 p pp (some cs) = wanUdpRouted rt' w s l2 p pp (some cs) := by
+  have hr' : (cs.hasRouting != 0) = true := by simp [hr]
+  unfold wanUdpRouted
+  simp only [hw, hr', Bool.false_eq_true, if_false, if_true]
+
+theorem wanUdpRouted_tracked_conn (rt : RouteIn → Int) (w : World) (s : Skb) (l2 : Bool) (p : Pkt)
+    (pp : Option PidPname) (cs : ConnState) (hw : cs.wanDir = false) (hr : cs.hasRouting ≠ 0)
+    (hdp : (p.tuples.five.dport != 53) = true) (hl : alookup w.conn p.tuples.five = some cs) :
+    ∃ cs', alookup (wanUdpRouted rt w s l2 p pp (some cs)).1.conn p.tuples.five = some cs' ∧
+      cs'.decision = cs.decision ∧ cs'.hasRouting = 1 ∧ cs'.wanDir = cs.wanDir := by
+  have hr' : (cs.hasRouting != 0) = true := by simp [hr]
+  unfold wanUdpRouted
+  simp only [hw, hr', Bool.false_eq_true, if_false, if_true, wanVerdict_conn]
+  unfold wanUdpCache
+  simp only [hdp, if_true]
+  unfold setConn
+  exact ⟨_, alookup_areplace_self _ _ _ _ hl, rfl, rfl, hw.symm ▸ rfl⟩
+
+theorem wanUdpRouted_wandir (rt : RouteIn → Int) (w : World) (s : Skb) (l2 : Bool) (p : Pkt)
+    (pp : Option PidPname) (cs : ConnState) (hw : cs.wanDir = true) :
+    wanUdpRouted rt w s l2 p pp (some cs) = (w, outOk s s.mark) := by
+  unfold wanUdpRouted
+  simp only [hw, if_true]
+
+theorem wanUdpRouted_none_fate (rt : RouteIn → Int) (w : World) (s : Skb) (l2 : Bool) (p : Pkt)
+    (pp : Option PidPname) (ht : p.l4proto = IPPROTO_UDP)
+    (hr : 0 ≤ rt (wanRouteIn s p false (ppName pp) p.ethSrc)) (hrt : rtrackRoom w s p)
+    (hh : handoffRoom w p.tuples.five) :
+    (wanUdpRouted rt w s l2 p pp none).2.realises w s false
+      (wanFate w s p (unpackRoute (rt (wanRouteIn s p false (ppName pp) p.ethSrc)))) ∧
+    (wanUdpRouted rt w s l2 p pp none).1.conn = w.conn ∧
+    (wanFate w s p (unpackRoute (rt (wanRouteIn s p false (ppName pp) p.ethSrc))) = .toDae →
+      alookup (wanUdpRouted rt w s l2 p pp none).1.handoff p.tuples.five =
+        some ⟨w.now, ⟨(unpackRoute (rt (wanRouteIn s p false (ppName pp) p.ethSrc))).mark,
+          (unpackRoute (rt (wanRouteIn s p false (ppName pp) p.ethSrc))).must, p.ethSrc,
+          (unpackRoute (rt (wanRouteIn s p false (ppName pp) p.ethSrc))).ob, ppName pp, ppPid pp, p.tuples.dscp⟩⟩) := by
+  unfold wanUdpRouted
+  have hneg : ¬ rt (wanRouteIn s p false (ppName pp) p.ethSrc) < 0 := by omega
+  simp only [hneg, if_false, wanVerdict_conn, true_and]
+  exact ⟨wanVerdict_realises w s l2 p false _ _ _ _ _ (by rw [ht]; rfl) hrt (fun _ => hh),
+    fun hf => wanVerdict_handoff w s l2 p false _ _ _ _ _ (by rw [ht]; rfl) hh hf⟩
+
 end DaeVerif.C03
